@@ -120,3 +120,37 @@ simple("C03", "model_checking",
                       "args": ["--prop", "C03", "--threads", str(vlib.NPROC)] + (["--deadline", "2400"] if tier == "thorough" else []),
                       "kinds": ["hist"], "shards": 1}],
        needs_models=True)
+
+SCHED_TSAN_ENV = {"TSAN_OPTIONS": "exitcode=66 halt_on_error=1 report_signal_unsafe=0 suppressions=" +
+                  os.path.join(vlib.VERIF, "harness/sched/tsan.supp")}
+
+
+def sched_stages(tier):
+    fast = {"name": "sched-explore", "driver": "drv_sched", "config": "shim", "sources": ["harness/drv_sched.cpp"],
+            "plain_sources": ["harness/sched/sched.cpp"], "kinds": ["sched"], "shards": 4}
+    tsan = {"name": "sched-explore-tsan", "driver": "drv_sched", "config": "shimtsan", "sources": ["harness/drv_sched.cpp"],
+            "plain_sources": ["harness/sched/sched.cpp"], "kinds": ["sched"], "shards": 4, "env": SCHED_TSAN_ENV}
+    if tier == "thorough":
+        # all interleavings (no preemption bound) without TSan; bound 2 with TSan in every schedule
+        return [dict(fast, args=["--bound", "-1", "--bound_h2", "2", "--deadline", "2400"]),
+                dict(tsan, args=["--bound", "2", "--bound_h2", "1", "--freepass", "1", "--deadline", "1800"])]
+    return [dict(fast, args=["--bound", "2", "--bound_h2", "1", "--deadline", "120"]),
+            dict(tsan, args=["--bound", "1", "--bound_h2", "0", "--h1cases", "3", "--freepass", "1", "--deadline", "150"])]
+
+
+simple("C13", "model_checking",
+       "real code under a cooperative scheduler with a scheduling point before and after every atomic operation (force-included "
+       "atomic shim, no source change), one fresh process per schedule. H1 = 2 threads making the process's first table-needing "
+       "call (6 of 36 call pairs quick / all 36 thorough) + a second table-reading call, H2 = 3 threads, H3 = "
+       "set_max_input_length twice vs parse/can_parse/setters. Stage 1 (plain build): DFS over choice prefixes with state-hash "
+       "pruning, preemption bound 2 (quick) / none = all interleavings (thorough), sequential-result oracle. Stage 2 (TSan build, "
+       "uninstrumented futex hand-off so only the library's own atomics create happens-before): bound 1 (quick) / 2 (thorough) "
+       "with ThreadSanitizer as race oracle in every schedule, plus a free-running TSan pass with 2,3,8,16 threads. states = "
+       "distinct scheduler states expanded, transitions = choice points, traces = schedules executed on the real code",
+       ["oracle: each thread's result equals its result when run alone in a fresh process (H1/H2), or its result under one of the "
+        "three limits (H3); no TSan report, crash, hang, deadlock or livelock",
+        "the scheduler is sequentially consistent; weaker behaviours are covered by TSan's happens-before analysis of the real "
+        "memory orders and by the Promela model stage",
+        "libstdc++'s unsynchronised ctype<char>::narrow/widen cache (hit by std::regex) is suppressed: not ada's memory",
+        "a waiter that exhausts the 1e9-iteration spin cap (initialising thread not scheduled for seconds) is outside the bound"],
+       sched_stages)
